@@ -9,16 +9,17 @@ ENTRIES = [
     Entry('divisor', I, [('updateX(X_old, dxdtsum/6, dt), dt', 'updateX(X_old, dxdtsum/5, dt), dt')], 'R6.1'),
     Entry('stage3-state-half-step', I, [('X_k3 = updateX(X_old, k3, dt)', 'X_k3 = updateX(X_old, k3, dt/2)')], 'R6.1'),
     Entry('stage2-from-wrong-base', I, [('X_k2 = updateX(X_old, k2, dt/2)', 'X_k2 = updateX(X_k1, k2, dt/2)')], 'R6.1'),
-    Entry('alias-before-use', I, [('    dxdtsum = k1\n    X_k1 = updateX(X_old, k1, dt/2)\n\n    k2 = f(t + dt/2, X_k1)\n    dxdtsum += 2*k2\n    X_k2 = updateX(X_old, k2, dt/2)',
-                                   '    dxdtsum = k1\n    X_k1 = updateX(X_old, k1, dt/2)\n\n    k2 = f(t + dt/2, X_k1)\n    dxdtsum += 2*k2\n    X_k2 = updateX(X_old, k2, dt/2)\n    X_k1 = updateX(X_old, k1, dt/2)\n    k2 = f(t + dt/2, X_k1)')], 'R6.1',
-          why='k1 is aliased by dxdtsum and was already incremented in place'),
+    Entry('rebreak-F19-inplace-accumulator', I, [('dxdtsum = k1 + 2*k2', 'dxdtsum = k1\n    dxdtsum += 2*k2')], 'R6.3',
+          why='k1 may be (a view of) X_old when the derivative function returns its argument'),
+    Entry('coupler-own-time', 'kawin/GenericModel.py', [('dxdts.append(m.getdXdt(t, xsub))', 'dxdts.append(m.getdXdt(m.getCurrentX()[0], xsub))')], 'R6.4'),
+    Entry('kwn-time-dropped', 'kawin/precipitation/KWNBase.py', [('self._calculateDependentTerms(t, x)\n        return self._getdXdt', 'self._calculateDependentTerms(self.pData.time[self.pData.n], x)\n        return self._getdXdt')], 'R6.4'),
     Entry('euler-half-step', I, [('return updateX(X_old, dxdt, dt), dt', 'return updateX(X_old, dxdt, dt/2), dt')], 'R6.1'),
     Entry('inplace-state', I, [('    dxdt, dt = f(t, X_old, True)\n\n    k1 = dxdt', '    dxdt, dt = f(t, X_old, True)\n    X_old += 0*dxdt\n\n    k1 = dxdt')], 'R6.3'),
     Entry('updateX-inplace', S, [('return x + self._flattenX(unflatdxdt)*dt', 'x += self._flattenX(unflatdxdt)*dt\n        return x')], 'R6.3'),
     Entry('updateX-second-order-term', S, [('return x + self._flattenX(unflatdxdt)*dt', 'return x + self._flattenX(unflatdxdt)*dt*dt')], 'R6.2'),
     Entry('wrapper-time-shift', S, [('dXdt = self._f(t, unflatX)', 'dXdt = self._f(self._dtmin, unflatX)')], 'R6.2'),
     # behaviour-preserving variants
-    Entry('benign-rename-locals', I, [('k2 = f(t + dt/2, X_k1)\n    dxdtsum += 2*k2\n    X_k2 = updateX(X_old, k2, dt/2)', 'slope2 = f(t + dt/2, X_k1)\n    dxdtsum += 2*slope2\n    X_k2 = updateX(X_old, slope2, dt/2)')], kind='benign'),
+    Entry('benign-rename-locals', I, [('k3 = f(t + dt/2, X_k2)\n    dxdtsum += 2*k3\n    X_k3 = updateX(X_old, k3, dt)', 'slope3 = f(t + dt/2, X_k2)\n    dxdtsum += 2*slope3\n    X_k3 = updateX(X_old, slope3, dt)')], kind='benign'),
     Entry('benign-half-literal', I, [('k3 = f(t + dt/2, X_k2)', 'k3 = f(t + 0.5*dt, X_k2)')], kind='benign'),
     Entry('benign-no-accumulator', I, [('return updateX(X_old, dxdtsum/6, dt), dt', 'return updateX(X_old, (dxdtsum)*(1/6), dt), dt')], kind='benign'),
     Entry('benign-updateX-order', S, [('return x + self._flattenX(unflatdxdt)*dt', 'return dt*self._flattenX(unflatdxdt) + x')], kind='benign'),
